@@ -23,6 +23,7 @@ type MethodSpec struct {
 	Out          int    `json:"out"` // index into the message pool
 	Deprecated   bool   `json:"deprecated,omitempty"`
 	Comment      string `json:"comment,omitempty"`
+	Trailing     string `json:"trailing,omitempty"` // trailing comment of the rpc (after its ';' / closing brace)
 }
 
 type ServiceSpec struct {
@@ -287,8 +288,15 @@ func (f FileSpec) build() ([]*descriptorpb.FileDescriptorProto, error) {
 			if m.Deprecated {
 				md.Options = &descriptorpb.MethodOptions{Deprecated: proto.Bool(true)}
 			}
-			if m.Comment != "" {
-				sci.Location = append(sci.Location, &descriptorpb.SourceCodeInfo_Location{Path: []int32{6, int32(si), 2, int32(mi)}, Span: []int32{int32(10*si + mi + 1), 2, 3}, LeadingComments: proto.String(m.Comment)})
+			if m.Comment != "" || m.Trailing != "" {
+				loc := &descriptorpb.SourceCodeInfo_Location{Path: []int32{6, int32(si), 2, int32(mi)}, Span: []int32{int32(10*si + mi + 1), 2, 3}}
+				if m.Comment != "" {
+					loc.LeadingComments = proto.String(m.Comment)
+				}
+				if m.Trailing != "" {
+					loc.TrailingComments = proto.String(m.Trailing)
+				}
+				sci.Location = append(sci.Location, loc)
 			}
 			sd.Method = append(sd.Method, md)
 		}
